@@ -386,7 +386,8 @@ Definition sge_spec_ok (c : qcase) : bool :=
   end.
 """
 RECORDS = [("qname", "all.q"), ("hostname", "node17"), ("failed", "0"), ("failed", "100"), ("failed", "x"), ("exit_status", "0"),
-           ("exit_status", "137"), ("failed", "00"), ("failed", "007"), ("jobnumber", "123"), ("failedx", "1")]
+           ("exit_status", "137"), ("failed", "00"), ("failed", "007"), ("jobnumber", "123"), ("failedx", "1"), ("failed", "1"), ("failed", "2"),
+           ("failed", "26")]
 RAWLINES = ["failed", "failed   37  : qmaster enforced h_rt limit", "  failed 1", "==============", "", "failed\t0", "Failed 1"]
 
 
